@@ -106,6 +106,17 @@ CHECKS.update({
                 ref="5/C18", note=E23_NOTE + " " + E1_NOTE),
 })
 
+CHECKS.update({
+    "C08": dict(engine="E1", technique="explicit-state exploration of the real simulator; "
+                "independent row parser + the project's CSVReader on every trace, "
+                "compared with the shadow automaton",
+                text="Every row of every trace (release/scheduled/placement/finished/"
+                     "cancel/missed/graph/scheduler/end rows) against the shadow; the "
+                     "same rows must be accepted by data.csv_reader.CSVReader and its "
+                     "reconstructed tasks/graphs must match the run.",
+                ref="5/C08", note=E1_NOTE),
+})
+
 NOT_YET = {}
 
 
@@ -171,7 +182,7 @@ ENGINES = [
     {"name": "E3", "path": "vf/checks/c17.py", "serves_properties": ["C13", "C16", "C17"],
      "kind_free_text": "exhaustive input enumeration of pure functions vs brute force"},
     {"name": "E1", "path": "vf/e1.py", "serves_properties":
-        ["C01", "C02", "C03", "C05", "C06", "C07", "C18"],
+        ["C01", "C02", "C03", "C05", "C06", "C07", "C08", "C18"],
      "kind_free_text": "closed-world run explorer: real main.main() in-process, answer "
                        "tape for randomness, shadow monitors on every event"},
 ]
